@@ -906,8 +906,16 @@ async fn input_processing(
         let labels_of_other_inputs: Vec<Option<Label>> = masked_inputs
             .iter()
             .enumerate()
-            .map(|(w, input)| input.map(|b| input_labels[w] ^ (b & delta)))
-            .collect();
+            .map(|(w, input)| match input {
+                // a masked value for a register that is not an input wire can only come from a
+                // peer that deviates from the protocol
+                Some(b) => match input_labels.get(w) {
+                    Some(label) => Ok(Some(*label ^ (*b & delta))),
+                    None => Err(MpcError::InputWithoutLabel(w)),
+                },
+                None => Ok(None),
+            })
+            .collect::<Result<_, _>>()?;
         send_to(channel, p_eval, "labels", &labels_of_other_inputs).await?;
     } else {
         debug!("Evaluator party, receiving masked inputs and labels");
